@@ -58,7 +58,18 @@ def _(E, p):
     g = Grid(E.arr("points", _pts3(n, 1)), E.arr("weights", _wts(n, 2)))
     f1 = E.arr("f1", _rs(3).rand(n))
     f2 = E.alias("f2", "f1", _rs(4).rand(n))
-    return [g.integrate(f1), g.integrate(f1, f2), g.points, g.weights]
+    out = [g.integrate(f1), g.integrate(f1, f2)]
+    # (any number of integrands may be handed over)
+    f3 = E.arr("f3", _rs(5).rand(n) - 0.5)
+    f4 = E.arr("f4", _rs(6).rand(n) + 1.0)
+    k = p % 4
+    if k == 1:
+        out.append(g.integrate(f1, f2, f3))
+    elif k == 2:
+        out.append(g.integrate(f1, f2, f3, f4))
+    elif k == 3:
+        out.append(g.integrate(f3, f3, f3))
+    return out + [g.points, g.weights]
 
 
 @entry("grid_moments", 1.5)
